@@ -564,6 +564,20 @@ func (ev *evaluator) callExpr(n *ast.CallExpr) *Val {
 				return &Val{T: Forall([]*Term{bv}, Implies(rng, body.T)), Typ: boolT}
 			}
 			return &Val{T: Exists([]*Term{bv}, And(rng, body.T)), Typ: boolT}
+		case "rangepos":
+			// byte position of the range-over-string iterator at the loop cut point
+			if ev.blk == nil {
+				ev.errorf("rangepos() outside a loop clause")
+			}
+			for _, ins := range ev.blk.Instrs {
+				if nx, ok := ins.(*ssa.Next); ok {
+					itv := ev.x.get(ev.fr, nx.Iter)
+					if itv.Iter != nil && !itv.Iter.isMap {
+						return &Val{T: ev.x.ctx.hread(ev.st, itv.Iter.cell, SInt, itv.Iter.ref), Typ: intT}
+					}
+				}
+			}
+			ev.errorf("rangepos(): loop header has no string iterator")
 		case "fresh":
 			v := ev.ev(n.Args[0])
 			return &Val{T: Ge(refOf(v), ev.fr.entry.alloc), Typ: boolT}
